@@ -525,7 +525,7 @@ func (m *Machine) modelVals() []ModelVal {
 		}
 		for _, cd := range codecs {
 			q := ufq{}
-			if m.sol.HasDecl(cd.okN) {
+			if m.sol.HasDecl(cd.okN) && m.reachesDecoder(cd.okN, n.T) {
 				q.ok = sym.UF(cd.okN, sym.BoolSort, n.T)
 				ts = append(ts, q.ok)
 				if m.sol.HasDecl(cd.valN) {
